@@ -725,58 +725,147 @@ func c09r6(p *Program, r *Report) {
 		return true
 	})
 	r.Check(okI, pk, "routingKeyInfo (v4): indexes are the server's pk indexes in order", "indexes: info.request.pkeyColumns", "the routing key indexes are not the prepared metadata's partition-key indexes in their order")
-	// metadata path
+	// metadata path: component k is paired with the FIRST bound column whose name equals partition-key column k;
+	// a column without a bound value abandons the routing key. Two spellings are understood: the search loop
+	// inline (sentinel -1, break at the first match) and a search helper returning the index or -1.
+	ki, kc := norm(md.Key), norm(md.Value)
+	cPair := "routingKeyInfo (metadata): component k gets the index and type of the bound column named like partition-key column k"
+	cFirst := "routingKeyInfo (metadata): the first bound column of that name is used"
+	cMissing := "routingKeyInfo (metadata): a partition-key column without a bound value yields no routing key"
+	nameEq := func(c, a, b string) bool { return c == a+".Name=="+b+".Name" || c == b+".Name=="+a+".Name" }
+	returnsNilKey := func(ifs *ast.IfStmt) bool {
+		if len(ifs.Body.List) == 0 {
+			return false
+		}
+		rs, ok := ifs.Body.List[len(ifs.Body.List)-1].(*ast.ReturnStmt)
+		return ok && len(rs.Results) >= 1 && isNil(info, rs.Results[0])
+	}
 	var inner *ast.RangeStmt
 	for _, st := range md.Body.List {
 		if rs, ok := st.(*ast.RangeStmt); ok {
 			inner = rs
 		}
 	}
-	if inner == nil {
-		r.Unresolved("routingKeyInfo: bound-column search loop not found")
+	if inner != nil {
+		ai, bc := norm(inner.Key), norm(inner.Value)
+		okPair, okFirst := false, false
+		for _, st := range inner.Body.List {
+			ifs, ok := st.(*ast.IfStmt)
+			if !ok || !nameEq(norm(ifs.Cond), kc, bc) {
+				continue
+			}
+			var gotI, gotT bool
+			for _, b := range ifs.Body.List {
+				switch s := b.(type) {
+				case *ast.AssignStmt:
+					l, rr := norm(s.Lhs[0]), norm(s.Rhs[0])
+					if l == "routingKeyInfo.indexes["+ki+"]" && rr == ai {
+						gotI = true
+					}
+					if l == "routingKeyInfo.types["+ki+"]" && (rr == bc+".TypeInfo" || rr == norm(inner.X)+"["+ai+"].TypeInfo") {
+						gotT = true
+					}
+				case *ast.BranchStmt:
+					okFirst = s.Tok == token.BREAK
+				}
+			}
+			okPair = gotI && gotT && norm(inner.X) == "info.request.columns"
+		}
+		r.Check(okPair, inner, cPair, "indexes[k] = argIndex; types[k] = boundColumn.TypeInfo under name equality", "a partition-key component is paired with the wrong bound column index or type")
+		r.Check(okFirst, inner, cFirst, "break", "the search does not stop at the first matching bound column")
+		okMissing := false
+		for _, st := range md.Body.List {
+			if ifs, ok := st.(*ast.IfStmt); ok && norm(ifs.Cond) == "routingKeyInfo.indexes["+ki+"]==-1" && returnsNilKey(ifs) {
+				okMissing = true
+			}
+		}
+		r.Check(okMissing, md, cMissing, "return nil, nil", "a partition-key column that is not bound does not abandon routing-key construction (a partial key would hash to a wrong token)")
 		return
 	}
-	ki, kc := norm(md.Key), norm(md.Value)
-	ai, bc := norm(inner.Key), norm(inner.Value)
-	okPair, okFirst := false, false
-	for _, st := range inner.Body.List {
-		ifs, ok := st.(*ast.IfStmt)
+	// helper form:  idx := search(info.request.columns, keyColumn.Name)
+	var idxVar string
+	var search *FuncInfo
+	var searchCall *ast.CallExpr
+	for _, st := range md.Body.List {
+		as, ok := st.(*ast.AssignStmt)
+		if !ok || len(as.Lhs) != 1 || len(as.Rhs) != 1 {
+			continue
+		}
+		c, ok := ast.Unparen(as.Rhs[0]).(*ast.CallExpr)
 		if !ok {
 			continue
 		}
-		c := norm(ifs.Cond)
-		if c != kc+".Name=="+bc+".Name" && c != bc+".Name=="+kc+".Name" {
-			continue
-		}
-		var gotI, gotT bool
-		for _, b := range ifs.Body.List {
-			switch s := b.(type) {
-			case *ast.AssignStmt:
-				l, rr := norm(s.Lhs[0]), norm(s.Rhs[0])
-				if l == "routingKeyInfo.indexes["+ki+"]" && rr == ai {
-					gotI = true
-				}
-				if l == "routingKeyInfo.types["+ki+"]" && rr == bc+".TypeInfo" {
-					gotT = true
-				}
-			case *ast.BranchStmt:
-				okFirst = s.Tok == token.BREAK
+		if fn := calleeOf(info, c); fn != nil {
+			if callee := p.FuncOf(fn); callee != nil && callee.Pkg == p.Root && p.resultRange(callee) != nil {
+				idxVar, search, searchCall = norm(as.Lhs[0]), callee, c
 			}
 		}
-		okPair = gotI && gotT
 	}
-	r.Check(okPair, inner, "routingKeyInfo (metadata): component k gets the index and type of the bound column named like partition-key column k", "indexes[k] = argIndex; types[k] = boundColumn.TypeInfo under name equality", "a partition-key component is paired with the wrong bound column index or type")
-	r.Check(okFirst, inner, "routingKeyInfo (metadata): the first bound column of that name is used", "break", "the search does not stop at the first matching bound column")
-	// missing mapping -> no routing key
-	okMissing := false
+	if search == nil {
+		r.Unresolved("routingKeyInfo: neither a bound-column search loop nor an index-search helper was found in the partition-key loop")
+		return
+	}
+	// the helper: one loop over its slice parameter, returning the loop index at the first element whose Name equals
+	// its name parameter
+	rr := p.resultRange(search)
+	sinfo := search.Pkg.TypesInfo
+	var sl *ast.RangeStmt
+	inspectNoLit(search.Decl.Body, func(x ast.Node) bool {
+		if l, ok := x.(*ast.RangeStmt); ok && sl == nil {
+			sl = l
+		}
+		return true
+	})
+	okHelper, okFirst := false, false
+	needleIdx := -1
+	if sl != nil && len(sl.Body.List) == 1 {
+		if ifs, ok := sl.Body.List[0].(*ast.IfStmt); ok && ifs.Else == nil && len(ifs.Body.List) == 1 {
+			if rs, ok := ifs.Body.List[0].(*ast.ReturnStmt); ok && len(rs.Results) == 1 && norm(rs.Results[0]) == norm(sl.Key) {
+				okFirst = true
+				elem := norm(sl.Value)
+				if sl.Value == nil || elem == "_" {
+					elem = norm(sl.X) + "[" + norm(sl.Key) + "]"
+				}
+				k := 0
+				for _, pf := range search.Decl.Type.Params.List {
+					for _, pn := range pf.Names {
+						c := norm(ifs.Cond)
+						if c == elem+".Name=="+pn.Name || c == pn.Name+"=="+elem+".Name" {
+							needleIdx = k
+						}
+						k++
+					}
+				}
+				okHelper = needleIdx >= 0
+			}
+		}
+	}
+	_ = sinfo
+	argsOK := okHelper && rr.paramIdx < len(searchCall.Args) && needleIdx < len(searchCall.Args) && norm(searchCall.Args[rr.paramIdx]) == "info.request.columns" && norm(searchCall.Args[needleIdx]) == kc+".Name"
+	gotI, gotT, okMissing := false, false, false
 	for _, st := range md.Body.List {
-		if ifs, ok := st.(*ast.IfStmt); ok && norm(ifs.Cond) == "routingKeyInfo.indexes["+ki+"]==-1" {
-			if rs, ok := ifs.Body.List[len(ifs.Body.List)-1].(*ast.ReturnStmt); ok && isNil(info, rs.Results[0]) {
+		switch s := st.(type) {
+		case *ast.AssignStmt:
+			if len(s.Lhs) != 1 || len(s.Rhs) != 1 {
+				continue
+			}
+			l, rhs := norm(s.Lhs[0]), norm(s.Rhs[0])
+			if l == "routingKeyInfo.indexes["+ki+"]" && rhs == idxVar {
+				gotI = true
+			}
+			if l == "routingKeyInfo.types["+ki+"]" && rhs == "info.request.columns["+idxVar+"].TypeInfo" {
+				gotT = true
+			}
+		case *ast.IfStmt:
+			c := norm(s.Cond)
+			if (c == idxVar+"==-1" || c == idxVar+"<0" || c == "-1=="+idxVar) && returnsNilKey(s) && rr.lo == -1 {
 				okMissing = true
 			}
 		}
 	}
-	r.Check(okMissing, md, "routingKeyInfo (metadata): a partition-key column without a bound value yields no routing key", "return nil, nil", "a partition-key column that is not bound does not abandon routing-key construction (a partial key would hash to a wrong token)")
+	r.Check(argsOK && gotI && gotT, md, cPair, "idx := "+search.Name+"(columns, keyColumn.Name); indexes[k] = idx; types[k] = columns[idx].TypeInfo", "a partition-key component is paired with the wrong bound column index or type")
+	r.Check(okFirst, search.Decl, cFirst, "the helper returns at the first match", "the search does not stop at the first matching bound column")
+	r.Check(okMissing, md, cMissing, "return nil, nil", "a partition-key column that is not bound does not abandon routing-key construction (a partial key would hash to a wrong token)")
 }
 
 // c09Less decides how a token type's Less orders two tokens. kind: "int" (signed <), "string" (< on strings,
